@@ -11,6 +11,7 @@ outputs (pre-initial atoms true).
 from __future__ import annotations
 
 import datetime as dt
+import re
 import os
 
 from vlib.gen import graphgen as G
@@ -189,7 +190,40 @@ class DatetimePoints:
         return ['-' + self._dur(h), '-' + self._dur(h), '-' + self._dur(2 * h),
                 '-P1D', '+' + self._dur(h), '^', '^+' + self._dur(h),
                 self.text(self.point(1)), self.text(self.point(2)),
-                '-' + self._dur(3 * h)]
+                '-' + self._dur(3 * h)] + [
+                    self.spell(self.point(k), style)
+                    for k, style in ((1, 'short'), (2, 'extended'),
+                                     (1, 'othertz'), (3, 'othertz-ext'),
+                                     (2, 'short'))]
+
+    def spell(self, q, style):
+        """Another legal spelling of the absolute point q (same instant)."""
+        def ext(tz):
+            return tz if tz == 'Z' else (
+                tz[:3] + (':' + tz[3:] if len(tz) > 3 else ''))
+        if style == 'short':
+            return f'{q:%Y%m%dT%H}{self.tz}'
+        if style == 'extended':
+            return f'{q:%Y-%m-%dT%H:%M}{ext(self.tz)}'
+        others = sorted(t for t in self.TZS if t != self.tz)
+        other = others[(q.hour + q.day) % len(others)]
+        shifted = q + dt.timedelta(
+            minutes=self.TZS[other] - self.TZS[self.tz])
+        if style == 'othertz':
+            return f'{shifted:%Y%m%dT%H%M}{other}'
+        return f'{shifted:%Y-%m-%dT%H:%M}{ext(other)}'
+
+    ABS_RE = re.compile(
+        r'^(\d{4})-?(\d{2})-?(\d{2})T(\d{2})(?::?(\d{2}))?'
+        r'(Z|[+-]\d{2}(?::?\d{2})?)$')
+
+    def parse_abs(self, text):
+        m = self.ABS_RE.match(text)
+        assert m, text
+        y, mo, d, h, mi, tz = m.groups()
+        q = dt.datetime(int(y), int(mo), int(d), int(h), int(mi or 0))
+        tz = tz.replace(':', '')
+        return q + dt.timedelta(minutes=self.TZS[self.tz] - self.TZS[tz])
 
     def point(self, k):
         return self.icp + dt.timedelta(hours=k * self.step_h)
@@ -209,7 +243,7 @@ class DatetimePoints:
             q = self.icp + (interval(offset[1:]) if len(offset) > 1
                             else dt.timedelta(0))
         elif offset[0].isdigit():
-            q = dt.datetime.strptime(offset[:13], '%Y%m%dT%H%M')
+            q = self.parse_abs(offset)
         else:
             q = p + interval(offset)
         return q, q < self.icp
@@ -313,9 +347,9 @@ def build_case(rng):
                 # a second arrow over the very same outputs, other operators
                 leaves = list(prev_leaves)
             prev_leaves = leaves
-            if k >= 2 and rng.random() < 0.25:
+            if len(leaves) >= 2 and rng.random() < 0.25:
                 # the same written node twice in one expression
-                leaves[rng.randrange(k)] = rng.choice(leaves)
+                leaves[rng.randrange(len(leaves))] = rng.choice(leaves)
             two = [t for t, outs in customs.items() if len(outs) == 2]
             if msg_class == 'nested-text' and two and rng.random() < 0.5:
                 # both outputs of one task (messages "m" and "m now")
